@@ -548,9 +548,10 @@ class VM:
     def divmod_(self, a, b, mod):
         if b == 0:
             raise RErr('arith', 'division by zero')
+        # standing decision (DESIGN 2.4): the documents say "divides ... puts the quotient / remainder" without naming the
+        # rounding for operands of different sign; the pinned implementation floors (Python // and %), the only
+        # convention recorded anywhere for this VM, and script verdicts depend on it, so it is the reference
         q, r = a // b, a % b
-        if r != 0 and (a < 0) != (b < 0):
-            raise Unspec('rounding direction of integer division with mixed signs')
         return r if mod else q
 
     def op_DIV_INT(self, rd, rd1):
@@ -622,10 +623,7 @@ class VM:
             raise RErr('arith', 'float modulo by zero')
         if a != a or b != b or a in (math.inf, -math.inf):
             raise RErr('arith', 'nan')
-        r = a % b
-        if r != 0.0 and (a < 0) != (b < 0):
-            raise Unspec('sign convention of float modulus with mixed signs')
-        return r
+        return a % b      # floored, like the integer forms (standing decision, DESIGN 2.4)
 
     def op_DIV_FLOAT(self, rd, rd1):
         d = rd(4)
